@@ -513,6 +513,7 @@ class E7Heap(ScriptEngine):
             use_sleep=False,
             main_loop=True,
             steady_loop=rng.random() < 0.8,
+            shrink_reassign=rng.random() < 0.04,
         )
         gen = ProgGen(rng, avoid, opts)
         gen.list_bias = True
@@ -610,7 +611,8 @@ class E1Layout(ScriptEngine):
     rule = (
         "core-language and actuator programs rendered through a seeded layout (comment lines at any column, "
         "trailing comments incl. on block headers, blank lines, per-block indent unit 1-8 or tabs, trailing "
-        "whitespace, optional spaces around tokens); each variant is first validated against CPython's own ast; "
+        "whitespace, optional spaces around tokens); each variant is first validated against CPython's own ast; one case "
+        "in eight contains (multi-handler) try/except and is judged on the firmware text and the ignored-line log only; "
         "checks: firmware text byte-identical to the original's, board(variant) refines host(original), and every "
         "entry of the REDUINO_VERIF ignored-line log belongs to the fixed set of meaningless lines; non-trivial = "
         "variant differs from the original text; distinct = digest of the variant"
@@ -622,7 +624,15 @@ class E1Layout(ScriptEngine):
         from dst.gen.layout import relayout, same_python
         from dst.gen.programs import GenOptions, ProgGen, random_world
 
-        if rng.random() < 0.8:
+        text_only = False
+        if rng.random() < 0.12:
+            # try/except does not compile (open finding), but its block structure is still translated: such scripts
+            # are judged on the firmware text and the ignored-line log only
+            opts = GenOptions(max_stmts=rng.choice([12, 20]), max_depth=rng.choice([2, 3]))
+            original = ProgGen(rng, [a for a in avoid if a != "try_except"], opts).generate()
+            text_only = "try:" in original
+            duty = []
+        elif rng.random() < 0.8:
             opts = GenOptions(max_stmts=rng.choice([6, 12, 20]), max_depth=rng.choice([1, 2, 3]))
             original = ProgGen(rng, avoid, opts).generate()
             duty = []
@@ -639,7 +649,7 @@ class E1Layout(ScriptEngine):
                 variant, used = cand, feats
                 break
         worlds = [random_world(rng, original, rng.choice([0, 1, 2, 3])) for _ in range(2)]
-        return {"script": variant, "host_script": original, "worlds": worlds, "layout_features": used, "duty_pins": duty}
+        return {"script": variant, "host_script": original, "worlds": worlds, "layout_features": used, "duty_pins": duty, "text_only": text_only}
 
     def duty_tol(self, case: dict):
         return {f"pin:{p}": 1 for p in case.get("duty_pins", [])}
@@ -664,6 +674,10 @@ class E1Layout(ScriptEngine):
                 cls="layout-changes-output",
                 message=f"firmware differs at line {k}: original {a[k] if k < len(a) else '<end>'!r} / variant {b[k] if k < len(b) else '<end>'!r}",
             )
+        if case.get("text_only"):
+            if isinstance(res_o, Exception):
+                return Outcome("rejected", message=str(res_o)[:200], probes={"rejected": 1})
+            return Outcome("ok", digest=sha(variant)[:16], nontrivial=variant != original, probes={"text_only": 1})
         out = super().execute(case)
         if out.status == "ok":
             out.nontrivial = out.nontrivial and variant != original
@@ -839,6 +853,7 @@ class E2Meta(ScriptEngine):
             both("bz = Buzzer({})", lit(13, "pin"))
         if use_us:
             both("us = Ultrasonic(22, 23, sensor={})", lit(r.choice(["HC-SR04", "hc-sr04", "hc_sr04"]), "str"))
+        p_lines.append(("tag = 'ab'",) * 2)
         both("g = {}", lit(r.randint(0, 50)))
         both("h = {} * 2 + 1", lit(r.randint(0, 9)))
         ops = r.randint(3, 9)
@@ -846,7 +861,7 @@ class E2Meta(ScriptEngine):
         body_loop: List[Tuple[str, str]] = []
 
         def emit_op(target_list):
-            k = r.choice(["sleep", "blink", "bright", "fade", "flash", "servo", "len_s", "len_l", "glyph", "lcdw", "beep", "range", "measure", "globalexpr", "wrapped", "wrapped"])
+            k = r.choice(["sleep", "blink", "bright", "fade", "flash", "servo", "len_s", "len_l", "glyph", "lcdw", "beep", "range", "measure", "globalexpr", "wrapped", "wrapped", "augstr"])
             fmt, pairs = None, ()
             if k == "sleep":
                 fmt, pairs = "sleep({})", (lit(r.choice([0, 1, 7, 25])),)
@@ -887,6 +902,11 @@ class E2Meta(ScriptEngine):
                 form = r.choice(["max({c}, {v})", "min({c}, {v})", "max({v}, {c})", "abs({v} - {c})", "int({v} * 1.5)", "({v} if {v} > {c} else {c})", "max({c}, {c}, {v})", "min(max({c}, {v}), 200)"])
                 site = r.choice(["sleep({})", "led.set_brightness({})", "sv.write({})", "mon.write({})"])
                 target_list.append((site.format(form.format(c=c, v=v[0])), site.format(form.format(c=c, v=v[1]))))
+                return
+            elif k == "augstr":
+                # after an augmented assignment the name is run-time-only: len() right behind it follows the device value
+                target_list.append((f'tag += "{r.choice(["x", "yz", ""])}"',) * 2)
+                target_list.append((r.choice(["mon.write(len(tag))", "sleep(len(tag))", 'mon.write(len(f"<{tag}>"))']),) * 2)
                 return
             elif k == "globalexpr":
                 a = lit(r.randint(1, 20))
